@@ -4,6 +4,7 @@ from numbers import Number
 
 import vf
 vf.use_repo()
+from ak.color import CHText  # noqa: E402
 from ak.ppobj import PPTable, PPEnumFieldType, FieldType, ALIGN_CENTER  # noqa: E402
 
 FIELDS = ['a', 'b', 'st', 'd']
@@ -38,7 +39,18 @@ class TaggedFieldType(FieldType):
         chunks, align = super().make_desired_cell_ch_chunks(value, None, field_palette)
         if fmt_modifier is not None:
             chunks = chunks + [field_palette.text("~" + fmt_modifier)]
+        if fmt_modifier in ('x', 'u'):
+            # (the cell is handed over as ONE text object - pieces of the same look melt into one run of characters,
+            # so the text has other pieces with colours than without)
+            chunks = CHText(*chunks)
         return chunks, self.ALIGN if self.ALIGN is not None else align
+
+    def get_cell_text_len(self, value, fmt_modifier):
+        # (a field type that hands over text objects has to say how long its cells are)
+        if fmt_modifier in ('x', 'u'):
+            chunks, _ = FieldType.make_desired_cell_ch_chunks(self, value, None, self.PALETTE_CLASS(no_color=True))
+            return CHText.calc_chunks_len(chunks) + 1 + len(fmt_modifier)
+        return super().get_cell_text_len(value, fmt_modifier)
 
     def is_fmt_modifier_ok(self, fmt_modifier):
         return True, ""
